@@ -209,6 +209,7 @@ def register(reg):
     register_base_selection(reg)
     register_info(reg)
     register_setup(reg)
+    register_merge(reg)
 
 
 # =============================================================================================
@@ -1165,3 +1166,133 @@ def finalize(reg):
             return r
         cbh.result = logged
         cbh._logs_result = True
+
+
+# =============================================================================================
+# _merge_close_groups (C06): the merge loop stops only when adjacent groups are separated
+# =============================================================================================
+from pyvc.pandas_model import SSeries as _SSeries
+
+#: the value _get_min_sep_for_height returns for a height -- a function of the height (the method is pure: frame contract; its own
+#: contract says which MIN_SEP_VALS entry it is)
+MinSepF = z3.Function('min_sep_of', z3.RealSort(), z3.RealSort())
+
+
+class ChunkForMerge(Spec):
+    def __init__(self, n_excl):
+        self.n_excl = n_excl
+
+    def make(self, name, ctx):
+        ch = ChunkWithHits('groups', self.n_excl).make(name, ctx)
+        ch.fields.update({'_layers': None, '_slices': Opaque('slices table'), '_groups': None})
+        ch.ghost['n_groups'] = SInt(ch.ghost['N'], 'int')
+        ctx.len_vars.append(ch.ghost['N'])
+        return ch
+
+    def describe(self):
+        return f'sliced chunk with a symbolic hit table carrying group ids ({self.n_excl} excluded ceilometer name(s))'
+
+
+def _merge_table_facts(T, idx):
+    base, cid = T.col('height_base'), T.col('cluster_id')
+    n = T.n
+    if base.dtype == 'unset' or cid.dtype == 'unset':
+        return {'table_has_bases': False}
+    close = lambda k: And(k >= 1, _rv(base[k]) - _rv(base[k - 1]) < MinSepF(_rv(base[k])))
+    return {
+        # the "too close" flags are those of the *current* table: row k is flagged iff it is closer to the row below it than the
+        # minimum separation at its own height
+        'flags_are_current': Forall(0, n, lambda k: to_bool(idx.at(k)) == close(k)),
+        'bases_finite': Forall(0, n, lambda k: cell(base, k, lambda v: And(Not(_isnan(v)), _rv(v) >= 0, _rv(v) < 100000))),
+        'ids_are_sets': Forall(0, n, lambda k: cell(cid, k, lambda v: v >= 0)),
+        'shape': And(idx.n == n, n >= 0),
+        'row_labels_are_positions': T.index_is_range is True}
+
+
+def _merge_inv(E):
+    return _merge_table_facts(E.prelim_groups, E.lt_min_sep_indexer)
+
+
+def _merge_havoc(env, ctx):
+    """state at the head of an arbitrary iteration: a table with some number of rows, fresh id / base columns, fresh flags; the
+    group ids of the hits have been rewritten by earlier merges"""
+    T = env['prelim_groups']
+    n = smt.fresh_int('groups_left')
+    cols = {}
+    for name, c in T.cols.items():
+        if name == 'cluster_id':
+            cols[name] = fresh_column(n, name, 'int', 'npint', with_defd=True)
+        elif name == 'height_base':
+            cols[name] = fresh_column(n, name, 'float', 'npfloat', with_defd=True)
+        elif name == 'ncomp':
+            cols[name] = fresh_column(n, name, 'int', 'int', with_defd=True)
+        else:
+            cols[name] = fresh_column(n, name, 'unset')
+    newT = STable(n, cols)
+    env['prelim_groups'] = newT
+    F = smt.fresh('too_close', BoolArr)
+    flags = _SSeries(n, lambda i: SBool(F[i], 'npbool'), 'bool', arr=F)
+    env['lt_min_sep_indexer'] = flags
+    for nm in ('min_seps_grp', 'base_height_diffs'):
+        a = smt.fresh(nm, z3.ArraySort(z3.IntSort(), z3.RealSort()))
+        an = smt.fresh(nm + '_nan', BoolArr)
+        env[nm] = _SSeries(n, (lambda i, a=a, an=an: SFloat(a[i], an[i], 'npfloat')), 'float')
+    for nm in ('idx', 'data_idxer'):
+        env.pop(nm, None)
+    # the hits' group ids after the merges so far (all other hit columns are untouched: checked by the frame contracts of C05)
+    g = ctx.ghost['hits']
+    ids = smt.fresh('hit_group_id', z3.ArraySort(z3.IntSort(), z3.IntSort()))
+    fr = g['frame']
+    fr.cols['group_id'] = smt.memo1(lambda i: SInt(ids[i], 'npint'))
+    g['ids'] = ids
+    ctx.assume(Forall(0, g['n'], lambda i: (ids[i] >= 0) == Not(g['hn'][i]), name='ci2'))
+
+
+def _merge_body(E):
+    """one merge: the hits of the flagged group go to the group *below* it, its row is dropped, every base is recomputed by the
+    routine that also produces the reported bases"""
+    ctx = smt.CURRENT_CTX
+    out = {}
+    writes = [w for w in ctx.ghost.get('row_writes', []) if w[0] == 'group_id']
+    out['one_reassignment_of_hits'] = len(writes) == 1 and len(ctx.ghost.get('row_writes', [])) == 1
+    calls = [c for c in ctx.ghost.get('calls', []) if c[0].endswith('._calculate_sligrolay_base_height')]
+    # (the call before the loop is on this path too: the one made by the body is the last)
+    if not calls:
+        return {'bases_recomputed_by_the_shared_routine': False}
+    env = calls[-1][1]
+    T = E.prelim_groups
+    out['bases_recomputed_by_the_shared_routine'] = (env['pdf'] is T) and env['which'] == 'groups'
+    cid = T.col('cluster_id')
+    out['recomputed_for_the_remaining_groups'] = And(env['cluster_ids'].len == T.n,
+                                                      Forall(0, T.n, lambda k: env['cluster_ids'][k] == cid[k]))
+    return out
+
+
+def _merge_post(result, self):
+    ctx = smt.CURRENT_CTX
+    loc = ctx.ghost.get('locals_at_exit') or {}
+    T = loc.get('prelim_groups')
+    if not isinstance(T, STable):
+        return {'worked_on_a_table': False}
+    base = T.col('height_base')
+    return {
+        # C06: when the loop stops, any two adjacent groups of the table the merge decisions were taken on are at least the minimum
+        # separation (at the height of the upper one) apart
+        'adjacent_groups_separated': Forall(0, T.n, lambda k: Implies(k >= 1, _rv(base[k]) - _rv(base[k - 1]) >= MinSepF(_rv(base[k])))),
+        'returns_nothing': result is None}
+
+
+def register_merge(reg):
+    ms = reg.get(f'{CHUNK}._get_min_sep_for_height')
+    ms.pure_function = MinSepF
+    reg.add(Contract(
+        f'{CHUNK}._merge_close_groups', properties=('C06',),
+        cases=[(f'excl={k}', {'self': ChunkForMerge(k)}) for k in (0, 1)],
+        ensures=_merge_post,
+        raises={'AmpycloudError': lambda self: 'maybe'},
+        loops={0: {'invariant': _merge_inv, 'havoc': _merge_havoc, 'modifies': [],
+                   'variant': lambda E: E.prelim_groups.n,
+                   'body_obligations': lambda E, i=None: _merge_body(E)}},
+        canaries={'never_more_than_one_group': lambda result, self: (smt.CURRENT_CTX.ghost.get('locals_at_exit') or {}).get('prelim_groups').n <= 1},
+        notes=('MinSepF: the separation looked up for a height is a function of the height (purity of _get_min_sep_for_height: frame '
+               'contract + A-DET); AmpycloudError only from that lookup (MIN_SEP_LIMS / MIN_SEP_VALS of incompatible lengths)')))
